@@ -91,6 +91,7 @@ Theorem relay_never_back st u recv c u' :
 Proof.
   unfold handle_update.
   destruct (u_origin u =? 0); [simpl; tauto|].
+  destruct (negb (conns_pos (u_conns u))); [simpl; tauto|].
   destruct (u_origin u =? ns_self st).
   { destruct (u_epoch u =? ns_epoch st); [simpl; tauto|].
     destruct (u_susp u =? ns_epoch st); [simpl; tauto|].
@@ -121,6 +122,7 @@ Theorem replayed_id_no_effect st u recv :
 Proof.
   intro Hseen. unfold handle_update, same_picture.
   destruct (u_origin u =? 0); [simpl; auto|].
+  destruct (negb (conns_pos (u_conns u))); [simpl; auto|].
   destruct (u_origin u =? ns_self st).
   { destruct (u_epoch u =? ns_epoch st); [simpl; auto|].
     destruct (u_susp u =? ns_epoch st); [simpl; auto|].
@@ -136,6 +138,7 @@ Theorem stale_update_no_effect st u recv p :
 Proof.
   intros Hs Hp Hle. unfold handle_update, same_picture.
   destruct (u_origin u =? 0); [simpl; auto|].
+  destruct (negb (conns_pos (u_conns u))); [simpl; auto|].
   destruct (u_origin u =? ns_self st).
   { destruct (u_epoch u =? ns_epoch st); [simpl; auto|].
     destruct (u_susp u =? ns_epoch st); [simpl; auto|].
@@ -155,6 +158,7 @@ Theorem self_origin_never_accepted st u recv :
 Proof.
   intro Ho. unfold handle_update, same_picture. rewrite Ho.
   destruct (ns_self st =? 0); [simpl; auto|].
+  destruct (negb (conns_pos (u_conns u))); [simpl; auto|].
   rewrite N.eqb_refl.
   destruct (u_epoch u =? ns_epoch st) eqn:E; [simpl; auto|].
   assert (u_epoch u <> ns_epoch st) by lia.
@@ -170,6 +174,7 @@ Theorem info_monotone_step st u recv o :
 Proof.
   intro Hs. unfold handle_update, info_of.
   destruct (u_origin u =? 0); [apply pair_le_refl|].
+  destruct (negb (conns_pos (u_conns u))); [apply pair_le_refl|].
   destruct (u_origin u =? ns_self st).
   { destruct (u_epoch u =? ns_epoch st); [apply pair_le_refl|].
     destruct (u_susp u =? ns_epoch st); [apply pair_le_refl|].
@@ -210,7 +215,7 @@ Qed.
 (* an accepted ordinary update is recorded exactly: the stored pair is the update's, and the
    node's picture of the origin's connections is what the update lists *)
 Theorem fresh_update_recorded st u recv :
-  u_susp u = 0 -> u_origin u <> 0 -> u_origin u <> ns_self st ->
+  u_susp u = 0 -> u_origin u <> 0 -> conns_pos (u_conns u) = true -> u_origin u <> ns_self st ->
   mem_N (u_id u) (ns_seen st) = false ->
   pair_le (Some (u_epoch u, u_seq u)) (info_of st (u_origin u)) = false ->
   let st' := fst (handle_update st u recv) in
@@ -220,8 +225,8 @@ Theorem fresh_update_recorded st u recv :
       \/ (exists a, u_conns u = Some a /\ conns_equal (Some a) (aget (u_origin u) (ns_known st)) = true
                     /\ ns_known st' = ns_known st)).
 Proof.
-  intros Hs H0 Hself Hseen Hnew. unfold handle_update, info_of in *.
-  destruct (u_origin u =? 0) eqn:E0; [lia|].
+  intros Hs H0 Hpos Hself Hseen Hnew. unfold handle_update, info_of in *.
+  destruct (u_origin u =? 0) eqn:E0; [lia|]. rewrite Hpos. cbn [negb].
   destruct (u_origin u =? ns_self st) eqn:E1; [lia|].
   rewrite Hseen, Hs. change (negb (0 =? 0)) with false. cbv iota.
   assert (Hst : match aget (u_origin u) (ns_info st) with
@@ -251,6 +256,7 @@ Theorem notice_only_rewrites_named_epoch st u recv o :
 Proof.
   intro Hs. unfold handle_update, info_of.
   destruct (u_origin u =? 0); [simpl; tauto|].
+  destruct (negb (conns_pos (u_conns u))); [simpl; tauto|].
   destruct (u_origin u =? ns_self st).
   { destruct (u_epoch u =? ns_epoch st); [simpl; tauto|].
     destruct (u_susp u =? ns_epoch st); [simpl; tauto|].
@@ -317,6 +323,7 @@ Proof.
     rewrite relay_obs_nil_iff in Hn. exact (Hn _ _ Hin).
   - split; [reflexivity|]. revert Hin. unfold handle_update.
     destruct (u_origin u =? 0); [simpl; tauto|].
+    destruct (negb (conns_pos (u_conns u))); [simpl; tauto|].
     destruct (u_origin u =? ns_self st).
     { destruct (u_epoch u =? ns_epoch st); [simpl; tauto|].
       destruct (u_susp u =? ns_epoch st); [simpl; tauto|].
@@ -335,6 +342,7 @@ Proof.
   intros Hne Hx. destruct e as [u rc|id]; simpl.
   - unfold handle_update.
     destruct (u_origin u =? 0); [exact Hx|].
+    destruct (negb (conns_pos (u_conns u))); [exact Hx|].
     destruct (u_origin u =? ns_self st).
     { destruct (u_epoch u =? ns_epoch st); [exact Hx|].
       destruct (u_susp u =? ns_epoch st); [exact Hx|].
